@@ -364,14 +364,18 @@ class FilesystemLayout(_BaseLayout[_MaildirT]):
         return True
 
     def _list_folders(self, parts: _Parts) -> Iterable[_Parts]:
-        path = self._get_path(parts)
-        if not os.path.isdir(path):
-            return
-        yield parts
-        for elem in os.listdir(path):
-            if elem not in ('new', 'cur', 'tmp'):
-                for sub_parts in self._list_folders(list(parts) + [elem]):
-                    yield sub_parts
+        # depth-first, parents before children, without recursion: the depth
+        # of the hierarchy is the client's choice
+        stack = [parts]
+        while stack:
+            parts = stack.pop()
+            path = self._get_path(parts)
+            if not os.path.isdir(path):
+                continue
+            yield parts
+            stack.extend(reversed([
+                list(parts) + [elem] for elem in os.listdir(path)
+                if elem not in ('new', 'cur', 'tmp')]))
 
     def _rename_folder(self, source_parts: _Parts, dest_parts: _Parts) -> None:
         path = self._get_path(source_parts)
